@@ -735,10 +735,18 @@ func ReplayMain(t *testing.T) {
 	var rerr error
 	go func() {
 		defer close(done)
-		for _, raw := range rf.Context {
-			e.replay(raw, true) // context: results ignored
+		// A failure that needs the context depends on state such as a
+		// sync.Pool, which the runtime may drop at any time: try a few times.
+		attempts := 1
+		if len(rf.Context) > 0 {
+			attempts = 6
 		}
-		msg, rerr = e.replay(rf.Case, os.Getenv("VK_NOTRIAGE") == "1")
+		for a := 0; a < attempts && msg == "" && rerr == nil; a++ {
+			for _, raw := range rf.Context {
+				e.replay(raw, true) // context: results ignored
+			}
+			msg, rerr = e.replay(rf.Case, os.Getenv("VK_NOTRIAGE") == "1")
+		}
 	}()
 	c0 := cpuTime()
 	start := time.Now()
